@@ -251,6 +251,9 @@ package blob
 // makes its own retrieval, for the height and the namespace it was asked for, with a parser that accepts exactly
 // the commitment it was asked for (Get$2 below), and hands back that retrieval's outcome - no result of another
 // caller's retrieval (another namespace, another height) can be handed out in its place.
+// (call-site view: nothing is promised to callers such as GetCommitmentProof beyond what they check themselves)
+//@ extern (*github.com/celestiaorg/celestia-node/blob.Service).Get
+//@   requires s != nil
 //@ func (*Service).Get
 //@   property C11
 //@   noframe
